@@ -29,24 +29,20 @@ func c13Preconditions(p *Prog, r *Report) {
 			if !ok || !isString(mi.X.Type()) {
 				continue
 			}
-			for _, g := range guardsAt(b) {
-				kind, mistakeSide, known := preconditionSide(g.Cond)
-				if !known || g.If == nil {
+			// the tests that lead straight to the panic: one per incoming edge (`a || b` gives two)
+			for _, pr := range b.Preds {
+				iff, ok := lastInstr(pr).(*ssa.If)
+				if !ok || pr.Succs[0] == pr.Succs[1] {
 					continue
 				}
-				// only the test that leads straight to the panic (earlier preconditions that were passed also dominate it)
-				direct := false
-				for _, sx := range g.If.Block().Succs {
-					if sx == b {
-						direct = true
-					}
-				}
-				if !direct {
+				pol := pr.Succs[0] == b
+				kind, mistakeSide, known := preconditionSide(iff.Cond)
+				if !known {
 					continue
 				}
 				n++
 				nInF++
-				r.Check(g.Pol == mistakeSide, "C13.R10", "precondition ("+kind+") of "+shortName(f)+" #"+itoa2(nInF), p.Pos(posOf(pn)),
+				r.Check(pol == mistakeSide, "C13.R10", "precondition ("+kind+") of "+shortName(f)+" #"+itoa2(nInF), p.Pos(posOf(pn)),
 					"the panic is on the side of the test that names the mistake",
 					"a precondition panic of the configuration API is on the wrong side of its "+kind+" test: the mistake it names is accepted and every well-formed call is refused")
 			}
@@ -77,9 +73,12 @@ func preconditionSide(cond ssa.Value) (kind string, mistakeWhen bool, ok bool) {
 			return "emptiness", c.Op == token.EQL, true
 		case yc.Value == nil && !isErrorType(x.Type()):
 			switch x.Type().Underlying().(type) {
-			case *types.Interface, *types.Pointer, *types.Signature:
+			case *types.Interface, *types.Pointer, *types.Signature, *types.Slice, *types.Map:
 				return "nil", c.Op == token.EQL, true
 			}
+		case yc.Value != nil && isLenCall(x):
+			// "must be N": the mistake is a length other than N
+			return "count", c.Op == token.NEQ, true
 		case yc.Value != nil && strings.HasSuffix(x.Type().String(), "reflect.Kind"):
 			if cl, isCall := x.(*ssa.Call); isCall && strings.HasSuffix(calleeName(cl.Common()), ".Kind") {
 				return "kind", c.Op == token.NEQ, true
@@ -184,3 +183,4 @@ func isString(t types.Type) bool {
 func isErrorType(t types.Type) bool {
 	return types.Identical(t, types.Universe.Lookup("error").Type())
 }
+
